@@ -20,6 +20,16 @@ for c in man["checks"]:
     else:
         out.append(f"| {pid} | (no evidence yet) | | | |")
 out.append("")
+sd = os.path.join(ROOT, "seeded")
+if os.path.isdir(sd):
+    out += ["#### Seeded changes (independent sub-agents) and what the checks reported", "",
+            "| seed | property | change | needs to manifest | check result |", "|---|---|---|---|---|"]
+    for d in sorted(os.listdir(sd)):
+        mp = os.path.join(sd, d, "meta.json")
+        if os.path.exists(mp):
+            m = json.load(open(mp))
+            out.append(f"| {d} | {m.get('property')} | {m.get('change','').replace('|','/')} | {m.get('needs','').replace('|','/')} | {m.get('check_result','').replace('|','/')} |")
+    out.append("")
 dd = os.path.join(ROOT, "design.d")
 for f in sorted(os.listdir(dd)):
     if f.endswith(".md"):
